@@ -865,6 +865,127 @@ var sessionPool = []string{"a", "b@alpha", "goos@(linux)", "a@(1 2)", "a@(9)", "
 	".config", ".config@(x)", ".config@alpha", ".fullname", ".fullname@(Foo)", ".name,/size", "/size@num", "a@(", "a@()", "\"x", "\"\"", ",a", "a,,b",
 	"a b", "k@(x/y z)", "goos@num,b", "b@first", "a@(1 2),b@fixed", "pkg", "a@alpha@num", "(a)"}
 
+// crlfCase: a text and the same text followed by 1-3 CR/LF bytes.  Trailing white space changes
+// nothing: an accepted text stays accepted, an error positioned before the end of the text stays where
+// it is, an error positioned at the end of the text stays at the (new) end.
+func crlfCase(base, suffix string) {
+	if mine() {
+		cid := id - 1
+		hx.Printf("case %d kind=crlf base=%s suffix=%s tag=crlf\n", cid, hx.HexS(base), hx.HexS(suffix))
+		guarded(cid, func(out *strings.Builder) {
+			o := func(text string) (string, string) {
+				_, ferr := benchproc.NewFilter(text)
+				star, _ := benchproc.NewFilter("*")
+				var pp benchproc.ProjectionParser
+				_, perr := pp.Parse(text, star)
+				return sOutcome(ferr), sOutcome(perr)
+			}
+			bf, bp := o(base)
+			ef, ep := o(base + suffix)
+			fmt.Fprintf(out, "sobs %d n=%d k=%d bf=%s ef=%s bp=%s ep=%s\n", cid, len(base), len(suffix), bf, ef, bp, ep)
+		})
+	}
+	exprCase(base+suffix, "crlf")
+}
+
+var crlfSuffixes = []string{"\n", "\r\n", "\n\n", "\r", "\n\n\n", "\r\n\r", "\n\r\n"}
+
+var crlfBases = []string{")", "a", "a:", "a:b c", "(a:b", "a:b)", ".config:a", "\"\":x", "a@nope", "a@()", "a@(", ".unit", "a:\"x", "a:/x", "a:/x/y", "a:(b c)",
+	"a:(b OR", "-", "AND", "a:b OR", ",a", "a,,b", "a@", "a@\"\"", ".config@(x)", "x y@bogus", "a:b", "*", "a b", "a@(1 2)", "k:/^v$/", "a:\"x\\", "a:b -", "(", "\"", "/"}
+
+// cfgCase: filters by structure in which a term NewFilter must reject (.config key, empty key) stands
+// somewhere below OR / AND / NOT / parentheses, next to the constants * and -*.  The walk of NewFilter
+// is depth first, left to right, so the reported offset is that of the first such term in the text.
+type fnode struct {
+	op   byte // 'L' leaf, '|' or, '&' and, '-' not
+	text string
+	bad  bool
+	kids []*fnode
+}
+
+func (n *fnode) render(b *strings.Builder, badOff *int) {
+	switch n.op {
+	case 'L':
+		if n.bad && *badOff < 0 {
+			*badOff = b.Len()
+		}
+		b.WriteString(n.text)
+	case '-':
+		b.WriteByte('-')
+		k := n.kids[0]
+		if k.op == '|' || k.op == '&' {
+			b.WriteByte('(')
+			k.render(b, badOff)
+			b.WriteByte(')')
+		} else {
+			k.render(b, badOff)
+		}
+	default:
+		for i, k := range n.kids {
+			if i > 0 {
+				if n.op == '|' {
+					b.WriteString(" OR ")
+				} else {
+					b.WriteString(" ")
+				}
+			}
+			if k.op == '|' || k.op == '&' {
+				b.WriteByte('(')
+				k.render(b, badOff)
+				b.WriteByte(')')
+			} else {
+				k.render(b, badOff)
+			}
+		}
+	}
+}
+
+var goodLeaves = []string{"*", "-*", "*", "-*", "goos:linux", "a:b", ".name:/x/", ".unit:ns/op", "k:(a OR b)"}
+var badLeaves = []string{".config:a", ".config:/x/", "\"\":v", ".config:(a OR b)", "\"\":/x/", ".config:\"*\""}
+
+func genFNode(r *hx.Rand, depth int, wantBad bool) *fnode {
+	if depth <= 0 || (!wantBad && r.Chance(1, 2)) {
+		if wantBad {
+			return &fnode{op: 'L', text: hx.Pick(r, badLeaves), bad: true}
+		}
+		return &fnode{op: 'L', text: hx.Pick(r, goodLeaves)}
+	}
+	switch r.Intn(4) {
+	case 0:
+		return &fnode{op: '-', kids: []*fnode{genFNode(r, depth-1, wantBad)}}
+	default:
+		op := byte('|')
+		if r.Chance(1, 2) {
+			op = '&'
+		}
+		n := 2 + r.Intn(2)
+		where := r.Intn(n)
+		nd := &fnode{op: op}
+		for i := 0; i < n; i++ {
+			nd.kids = append(nd.kids, genFNode(r, depth-1, wantBad && i == where))
+		}
+		return nd
+	}
+}
+
+func cfgCase(n *fnode) {
+	var b strings.Builder
+	badOff := -1
+	n.render(&b, &badOff)
+	text := b.String()
+	if mine() {
+		cid := id - 1
+		hx.Printf("case %d kind=cfgterm text=%s badoff=%d tag=cfgterm\n", cid, hx.HexS(text), badOff)
+		guarded(cid, func(out *strings.Builder) {
+			_, err := benchproc.NewFilter(text)
+			fmt.Fprintf(out, "sobs %d f=%s\n", cid, sOutcome(err))
+		})
+	}
+	exprCase(text, "cfgterm")
+}
+
+func leaf(t string, bad bool) *fnode { return &fnode{op: 'L', text: t, bad: bad} }
+
 func unqCase(text string) {
 	if !mine() {
 		return
@@ -1012,6 +1133,13 @@ func main() {
 			case "bare":
 				t, _ := hx.Field(l, "w")
 				bareCase(string(hx.UnHex(t)))
+			case "crlf":
+				b, _ := hx.Field(l, "base")
+				x, _ := hx.Field(l, "suffix")
+				crlfCase(string(hx.UnHex(b)), string(hx.UnHex(x)))
+			case "cfgterm":
+				t, _ := hx.Field(l, "text")
+				exprCase(string(hx.UnHex(t)), "replay")
 			case "session":
 				t, _ := hx.Field(l, "exprs")
 				var es []string
@@ -1140,6 +1268,37 @@ func main() {
 			es = append(es, hx.Pick(r, sessionPool))
 		}
 		sessionCase(es)
+	}
+
+	// 0g. trailing CR/LF, and semantically bad terms next to the constants * and -*
+	for _, base := range crlfBases {
+		for _, suf := range crlfSuffixes[:3] {
+			crlfCase(base, suf)
+		}
+	}
+	for i, n := 0, hx.N(1200, 25000); i < n; i++ {
+		base := hx.Pick(r, crlfBases)
+		switch r.Intn(3) {
+		case 0:
+			base = mutate(r, genFilter(r, 2))
+		case 1:
+			base = mutate(r, genProj(r))
+		}
+		crlfCase(base, hx.Pick(r, crlfSuffixes))
+	}
+	for _, n := range []*fnode{
+		{op: '|', kids: []*fnode{leaf("*", false), leaf(".config:a", true)}},
+		{op: '|', kids: []*fnode{leaf(".config:a", true), leaf("*", false)}},
+		{op: '&', kids: []*fnode{leaf("goos:linux", false), {op: '|', kids: []*fnode{leaf(".config:/x/", true), leaf("*", false)}}}},
+		{op: '&', kids: []*fnode{leaf("-*", false), leaf(".config:a", true)}},
+		{op: '-', kids: []*fnode{{op: '|', kids: []*fnode{leaf("*", false), leaf(".config:a", true)}}}},
+		{op: '&', kids: []*fnode{leaf("\"\":v", true), leaf("-*", false)}},
+		{op: '|', kids: []*fnode{leaf("*", false), leaf("\"\":v", true), leaf(".config:a", true)}},
+	} {
+		cfgCase(n)
+	}
+	for i, n := 0, hx.N(1200, 25000); i < n; i++ {
+		cfgCase(genFNode(r, 1+r.Intn(3), true))
 	}
 
 	// 1. exhaustive over the special alphabet
